@@ -86,6 +86,9 @@ def check_g2(pid, tier):
 
     results += runner.run_pool(c19.recunion_task, [(pid, "dict", o) for o in (("TO_DICT_ADD_OMIT_NONE_FLAG",), ("TO_DICT_ADD_BY_ALIAS_FLAG", "TO_DICT_ADD_OMIT_NONE_FLAG"),
                                                                               ("ADD_DIALECT_SUPPORT", "TO_DICT_ADD_OMIT_NONE_FLAG", "TO_DICT_ADD_BY_ALIAS_FLAG"))], chunks=1)
+    # union members that opted in to different flags: each member is packed by its own call
+    results += runner.run_pool(c19.member_flags_task, [(pid, "dict", o) for o in (("TO_DICT_ADD_OMIT_NONE_FLAG",), ("TO_DICT_ADD_BY_ALIAS_FLAG",),
+                                                                                  ("TO_DICT_ADD_OMIT_NONE_FLAG", "TO_DICT_ADD_BY_ALIAS_FLAG"))], chunks=1)
     obs, crashes, trusted = [], [], set()
     for r in results:
         if "crash" in r:
@@ -347,7 +350,8 @@ def check_g7(pid, tier):
     if pid == "C13":
         from . import c19
 
-        for r in runner.run_pool(c19.recunion_task, [(pid, b_, ("ADD_DIALECT_SUPPORT",)) for b_ in ("dict", "orjson")], chunks=1):
+        for r in (runner.run_pool(c19.recunion_task, [(pid, b_, ("ADD_DIALECT_SUPPORT",)) for b_ in ("dict", "orjson")], chunks=1)
+                  + runner.run_pool(c19.member_flags_task, [(pid, b_, ("ADD_DIALECT_SUPPORT",)) for b_ in ("dict", "orjson", "msgpack")], chunks=1)):
             if "crash" in r:
                 extra.append(dict(id=f"{pid}.Grec/crash", status="error", detail=r["crash"] + " @ " + r["payload"] + r["trace"][-400:]))
             else:
